@@ -70,7 +70,7 @@ def close_join(sc):
         for i in range(n):
             handles.append(('apply', pool.apply_async(targets.slow, (i, sc['dur'])), ('ok', i)))
     if 'map' in mix and threads:
-        handles.append(('map', pool.map_async(targets.slow, list(range(n))),
+        handles.append(('map', pool.map_async(targets.uneven, list(range(n)), 1),
                         [('ok', i) for i in range(n)]))
     if 'dying' in mix:
         # its worker dies under it shortly after close(): the job still resolves (as lost)
